@@ -281,7 +281,7 @@ def run(ctx):
 
     # ---------------- K-eval / K-gen / oracle
     depth = ctx.size(4, 6)
-    n = ctx.size(1500, 40000)
+    n = ctx.size(1500, 32000)
     g = X.EGen(ctx.rng)
     cases = []
     for i in range(n):
